@@ -7,8 +7,8 @@ Local Open Scope Z_scope.
    (serde-indexed position + offset, serde rename / rename_all), wire type and capacity, required or
    optional, aliases, lossy helper - equals the specification's parameter table, for all feature sets *)
 Theorem c01_generated_conforms :
-  forallb (fun f => env_conforms_role decl_de (gen_env f) (spec_env f)) all_feats = true.
-Proof. exact generated_de_role. Qed.
+  forallb (fun f => request_side_conforms (gen_env f) (spec_env f)) all_feats = true.
+Proof. exact generated_request_side. Qed.
 
 (* which type each parameter-bearing command byte is decoded as, in every feature configuration *)
 Theorem c01_generated_route : forall f b, In f all_feats -> 0 <= b < 256 ->
